@@ -133,7 +133,7 @@ CLAIMS = {
               'one call is the iteration of the one-pack program; the stored blobs (zlib) are oracles.'),
         design='4/C09'),
     'C10': dict(
-        technique='Coq: every write program leaves exactly the requested stored form (all inputs), transparency from the invariant, estimate model + mode-chain histories with per-row flag checks',
+        technique='Coq: every write program leaves exactly the requested stored form (all inputs), transparency from the invariant, totals as a model with sum theorems, estimate model + mode-chain histories with per-row flag checks and totals correspondence',
         text=('PROOF (Coq, closed): C10_pack_writes_the_requested_form, C10_direct_and_import_write_the_requested_form, C10_repack_writes_the_requested_form '
               '(after the completed call every entry written has the compressed flag, stored length and size of the object handed over for its key, every '
               'other entry is the old one), C10_repack_uniform_mode (all handed over compressed/plain => all entries of the pack compressed/plain), '
@@ -144,7 +144,10 @@ CLAIMS = {
               'behind compressed-format signatures; 130 mode-chain histories (pack/repack with NO/YES/KEEP/AUTO/bools, empty, tiny, compressible, '
               'incompressible, already-compressed, 66-70 kB objects) checking per affected row the flag, size, stored length and the four totals '
               'against the raw index/packs. PARTIAL: that the flag handed over is the one the mode prescribes (should_compress with the old flag for '
-              'KEEP, the heuristic for AUTO) is decided by the histories; the size totals are checked, not proved.'),
+              'KEEP, the heuristic for AUTO) is decided by the histories. TOTALS: get_total_size / count_objects are the Gallina function Totals.totals_of; '
+              'C10_total_size_is_the_sum_of_content_lengths, C10_plain_entries_occupy_their_size, C10_packed_on_disk_le_packfiles (on every state satisfying '
+              'the invariant, any number of packs and entries, the stored lengths never exceed the pack files); the extracted totals_of is compared with '
+              'get_total_size() and count_objects() on the raw state after every history step.'),
         design='4/C10'),
     'C11': dict(
         technique='Coq lemmas on DELETE / repack statements / unlink + delete-heavy histories with raw pack comparison',
@@ -195,14 +198,20 @@ CLAIMS = {
               'NOT MODELLED: reading from the source container, the callback, the old->new mapping dict (decided by the histories only).'),
         design='4/C14'),
     'C15': dict(
-        technique='Coq backup completeness theorem over monotone history + real rsync behind a scheduling wrapper',
+        technique='Coq: backup_container as a run of copy steps interleaved with any monotone steps - complete and a valid container for every run (induction over the chain of worlds) + observed step order == model + real rsync behind a scheduling wrapper',
         text=('PROOF (Coq, closed): C15_backup_complete (loose entries copied at their own instants, ONE atomic index dump, packs copied afterwards: '
               'every object stored at the start reads back from the backup, whatever monotone steps happen in between), '
-              'C15_concurrent_steps_monotone, C15_excludes_cover_index_files (exclude list from the AST covers packs.idx, -wal, -shm). TIE: the real '
+              'C15_concurrent_steps_monotone, C15_excludes_cover_index_files (exclude list from the AST covers packs.idx, -wal, -shm); backup_container as a RUN '
+              '(Backup.v: loose list taken, every listed entry transferred at its own instant - vanished entries skipped -, index dumped atomically, '
+              'pack list taken, every listed pack transferred at its own instant, ANY monotone steps of other clients between any two instants): '
+              'C15_backup_run_complete (every object stored at the start reads back from the backup), C15_backup_run_is_a_valid_container (the C03 '
+              'invariant holds of the backup), C15_backup_run_validates (validation clean; the library read path = library-free recovery on it). TIE: '
+              'the order of the rsync calls and of the index dump observed in every completed backup must equal Backup.backup_phases (extracted); the real '
               'backup_container with rsync 3.2.7; concurrent add/pack/pack+clean/clean/direct-to-pack placed before each of the 4 rsync calls and '
               'in the middle of the loose/packs/rest transfers, a long-open client keeping the WAL alive, incremental backups; the backup is opened '
               'as a Container, all objects read, validate, raw check (65 backups quick). PARTIAL: rsync and sqlite3 backup are modelled as '
-              'per-entry / atomic copies, not verified.'),
+              'per-entry / atomic copies, not verified; incremental backups (--link-dest against the previous backup) and the folder rotation are '
+              'tested (finding F7), not modelled.'),
         design='4/C15'),
     'C16': dict(
         technique='Coq proof of the merge/chunk/paging helpers (induction) and of the bulk lookup generator as a Gallina model (bulk answer = per-key answer for all requests, thresholds, snapshots) + differential correspondence model<->code',
